@@ -157,6 +157,44 @@ def parse_cbmc_json(path):
     return results, msgs, status
 
 
+def parse_cbmc_text(path):
+    """cbmc's plain-text result list -> (results, messages, status); results None unless the list is complete."""
+    try:
+        lines = open(path, errors="replace").read().splitlines()
+    except Exception as e:
+        return None, ["unreadable cbmc output: %s" % e], None
+    results, msgs, status = [], [], None
+    in_results, complete = False, False
+    cur_file, cur_fn = "", ""
+    for ln in lines:
+        if ln.startswith("** Results:"):
+            in_results = True
+            continue
+        if re.match(r"^\*\* \d+ of \d+ failed", ln):
+            complete = True
+            in_results = False
+            continue
+        if ln.startswith("VERIFICATION SUCCESSFUL"):
+            status = "success"
+        elif ln.startswith("VERIFICATION FAILED"):
+            status = "failure"
+        if in_results:
+            m = re.match(r"^\[([^\]]+)\] (?:line (\d+) )?(.*): (SUCCESS|FAILURE|UNKNOWN|ERROR|NOT_REACHABLE|NOT_CHECKED|UNREACHABLE)\s*$", ln)
+            if m:
+                results.append({"property": m.group(1), "description": m.group(3), "status": m.group(4),
+                                "sourceLocation": {"file": cur_file, "function": cur_fn, "line": m.group(2) or ""}})
+                continue
+            m = re.match(r"^(\S.*) function (\S+)\s*$", ln)
+            if m:
+                cur_file, cur_fn = m.group(1), m.group(2)
+                continue
+        if re.search(r"ignoring|Parse Error|returned error|Out of memory|unwinding", ln) and not in_results:
+            msgs.append(ln)
+    if not complete or status is None:
+        return None, ["incomplete cbmc output"] + lines[-3:], None
+    return results, msgs, status
+
+
 TIMINGS = []
 
 
@@ -188,9 +226,13 @@ def run_split(cmd, tmo, workdir, be, ngroups, slot="solver"):
     def one(idx_g):
         idx, g = idx_g
         outp = os.path.join(workdir, "cbmc.%s.g%d.json" % (be, idx))
-        c = list(cmd)
+        # first in plain-text mode without a trace: with --json-ui cbmc builds the error trace of every failed property,
+        # and the trace of the always-failing reach canary alone can exhaust the memory cap; a group with a genuine
+        # failure is run again with --json-ui --trace for the counterexample
+        c = [x for x in cmd if x not in ("--trace", "--json-ui")]
         for n in g:
             c += ["--property", n]
+        outp = outp[:-5] + ".txt"
         rc, out, err, dt = run(c, tmo, stdout_path=outp, slot=slot)
         TIMINGS.append((round(dt, 1), g[0], len(g)))
         if rc is None:
@@ -198,7 +240,19 @@ def run_split(cmd, tmo, workdir, be, ngroups, slot="solver"):
         if rc not in (0, 10):
             # cbmc aborted (out of memory, internal error): whatever it printed is not a verdict
             return None, g, ["cbmc exit code %s on group %s" % (rc, ",".join(g[:2]))]
-        results, msgs, status = parse_cbmc_json(outp)
+        results, msgs, status = parse_cbmc_text(outp)
+        if results is not None and any(
+                r["property"] in g and r.get("status") == "FAILURE" and REACH_DESC not in r.get("description", "")
+                for r in results):
+            outp2 = outp[:-4] + ".trace.json"
+            c2 = list(cmd) + (["--trace"] if "--trace" not in cmd else [])
+            for n in g:
+                c2 += ["--property", n]
+            rc2, out2, err2, dt2 = run(c2, tmo, stdout_path=outp2, slot=slot)
+            if rc2 in (0, 10):
+                results2, msgs2, status2 = parse_cbmc_json(outp2)
+                if results2 is not None:
+                    return results2, g, msgs2
         return results, g, msgs
 
     allres, allmsgs, timed_out = [], [], []
